@@ -43,7 +43,7 @@ CLAIMS = {
             "independent-reader oracle), CP437 table, DEFLATE data opaque.", "DESIGN.md section 5-C03"),
     "C07": ("PARTIAL. Coq theorems: gzip, ar and pyc-zero-mtime find nothing to change in their own output (all inputs, all epochs); a zip/jar member is not later than the epoch after the clamp and a second pass over a written archive of settled members reports nothing; for ANY handler "
             "whose byte-level function is idempotent, a fault-free run that replaced a single-link file is followed by a run that reports Noop, and a run that does not report Replaced leaves the file's "
-            "bytes, inode and metadata alone (any fault). The pyc rewriter run on its own output re-reads the tree it wrote and writes the same bytes (C07_pyc, from the round-trip theorem; domain as for C02). For javadoc the stamp pass is proved idempotent (no stamp text is left after one pass), the date-tag pass and the document level are not (zip holds under well-formedness side conditions): these are decided by re-running model and "
+            "bytes, inode and metadata alone (any fault). The pyc rewriter run on its own output re-reads the tree it wrote and writes the same bytes (C07_pyc, from the round-trip theorem; domain as for C02). For javadoc a whole header line is proved idempotent for epochs in [0, 2^32): the stamp pass leaves no stamp text, the date written parses back as itself and is not later than the epoch (all 49711 days enumerated in the kernel), the rewritten tag stays the leftmost one and its new value creates no stamp (C07_javadoc_line); that a second pass splits the document into the same lines and closes the header window at the same line is not closed in Coq (zip holds under well-formedness side conditions): these are decided by re-running model and "
             "implementation on every output of a modifying first run (all six handlers, generated inputs) and by CLI runs run;run;--check in the four serial/parallel combinations with inode/mtime snapshots.",
             "Modelled, not verified: the parallel controller; the multi-link rewrite path is covered by the tree runs.", "DESIGN.md section 5-C07"),
     "C08": ("Coq theorems for every byte string: none of the modelled handlers (gzip, ar, javadoc, pyc incl. the recursive marshal reader with its depth limit, pyc-zero-mtime) can reach a panic; "
